@@ -29,7 +29,8 @@ class C05(ProgProp):
         @st.composite
         def o2l(draw):
             offs = sorted(draw(st.lists(st.one_of(st.integers(0, 40), st.integers(0, 70000)), min_size=0, max_size=12, unique=True)))
-            lines = draw(st.lists(st.integers(0, 100000), min_size=len(offs), max_size=len(offs)))
+            # (3.13 line-start lists carry (offset, None) for ranges without a line)
+            lines = draw(st.lists(st.one_of(st.integers(0, 100000), st.integers(0, 100000), st.none()), min_size=len(offs), max_size=len(offs)))
             # queries: the start offsets themselves, their neighbours, and anything else
             near = [o + d for o in offs for d in (-1, 0, 0, 1)] or [0]
             queries = draw(st.lists(st.one_of(st.sampled_from(near), st.integers(-5, 70010)), min_size=1, max_size=8))
